@@ -412,7 +412,7 @@ Theorem io_roundtrip custom (o : ioline vt) rest : tags_wf (o_tags vt o) -> ends
   io_parse (io_toks custom o ++ rest)
   = Some (mk_iol vt (o_name vt o) (seen_tags custom (o_tags vt o)) (io_decay (o_type vt o)) [concat (o_desc vt o)], rest).
 Proof.
-  intros [Hok Hv] He. unfold FgdLine.io_toks, FgdLine.io_parse. cbn [app]. rewrite <- !app_assoc.
+  intros [Hok Hv] He. unfold FgdLine.io_toks, FgdLine.io_parse. cbn [app skip_nl]. rewrite <- !app_assoc.
   assert (Ht : opt_tags ((if custom then tags_toks (o_tags vt o) else []) ++ (TParen (io_text (o_type vt o))
                  :: (if nil_b (concat (o_desc vt o)) then [] else TColon :: str_toks (o_desc vt o)) ++ [TNl]) ++ rest)
                = Some (seen_tags custom (o_tags vt o), (TParen (io_text (o_type vt o))
